@@ -134,13 +134,13 @@ def shards(tier, seed):
     big = tier == "thorough"
     out = [(f"large_{fmt}", "shard_large", {"fmt": fmt}) for fmt in LARGE_SIZES]
     for fmt in OBJ.ALL_FORMATS:
-        n = 800 if big else 200
+        n = 4000 if big else 200
         if fmt in ("fcidump",):
-            n = 300 if big else 80
+            n = 1500 if big else 80
         out.append((f"{fmt}", "shard_format", {"fmt": fmt, "max_examples": n}))
     # formats with many optional keys get a second shard
     for fmt in ("pdb", "fchk", "json_qcschema"):
-        out.append((f"{fmt}_b", "shard_format", {"fmt": fmt, "max_examples": 800 if big else 200}))
+        out.append((f"{fmt}_b", "shard_format", {"fmt": fmt, "max_examples": 4000 if big else 200}))
     return out
 
 
